@@ -17,7 +17,7 @@ def strategy(tier):
                    st.tuples(st.just("item"), st.integers(0, 9)), st.tuples(st.just("task"), st.integers(0, 9)),
                    st.tuples(st.sampled_from(["dict", "tuple", "list", "none"]), st.integers(0, 9))).map(list)
     return st.fixed_dictionaries({"body": st.lists(op, max_size=8 if tier == "quick" else 16), "ns": st.lists(st.integers(0, 6), min_size=1, max_size=4),
-                                  "nested": st.booleans(), "mode": st.sampled_from(["list", "take", "take", "manual"])})
+                                  "nested": st.booleans(), "mode": st.sampled_from(["list", "take", "take", "manual", "several"])})
 
 
 def check(case, ctx):
@@ -128,6 +128,36 @@ def check(case, ctx):
                         pass
                     except BaseException as e:
                         bad("exhausted", "next() on an exhausted generator raised %r" % (e,))
+    elif mode == "several":
+        # several generator objects of the same function alive together, and an exhausted one kept around
+        a, b = mk(), mk()
+        n0 = ns[0] % (len(vals) + 1)
+        for name, thunk, exp in (("take_first(A, %d)" % n0, lambda: take_first(a, n0), vals[:n0]),
+                                 ("list_of_generator(B), B created before A was advanced", lambda: list_of_generator(b), vals),
+                                 ("list_of_generator(A) after B was exhausted", lambda: list_of_generator(a), vals[n0:])):
+            try:
+                got = thunk()
+            except BaseException as e:
+                got = ["raised", repr(e)]
+            if got != exp:
+                bad("several", "%s returned %r, expected %r" % (name, got, exp))
+                break
+        if not viol:
+            c = mk()                     # a third object, created while the exhausted A and B are still referenced
+            for name, old_gen in (("A", a), ("B", b)):
+                try:
+                    next(old_gen)
+                    bad("exhausted", "next() on exhausted generator %s returned something after another generator of the function was created" % name)
+                except StopIteration:
+                    pass
+                except BaseException as e:
+                    bad("exhausted", "next() on exhausted generator %s raised %r" % (name, e))
+            try:
+                got = list_of_generator(c)
+            except BaseException as e:
+                got = ["raised", repr(e)]
+            if got != vals and not viol:
+                bad("several", "list_of_generator(C), C created while exhausted generators of the same function were alive, returned %r, expected %r" % (got, vals))
     else:
         # manual iteration with misuse: advance before the previously returned task is computed
         gen = mk()
@@ -170,7 +200,7 @@ def check(case, ctx):
     ctx.label("n=0", mode == "take" and 0 in ns)
     ctx.label("nested", nested)
     ctx.label("structured-or-empty-await", any(k in ("dict", "tuple", "list", "none") for k, v in opl))
-    ctx.nontrivial(case, trailing or (mode == "take" and (0 in ns or len(ns) >= 2 or any(n > len(vals) for n in ns))))
+    ctx.nontrivial(case, trailing or mode == "several" or (mode == "take" and (0 in ns or len(ns) >= 2 or any(n > len(vals) for n in ns))))
     return viol
 
 
